@@ -135,6 +135,16 @@ pub fn guarded<T>(f: impl FnOnce() -> T) -> Result<T, String> {
     }
 }
 
+/// Was this panic (as described by the hook: `message @ file:line`) raised by harness code? The
+/// harness is compiled from its own directory, so its locations are relative (`src/...`); library
+/// code is compiled by absolute path, and the standard library reports its callers (`#[track_caller]`).
+pub fn panic_in_harness(desc: &str) -> bool {
+    match desc.rsplit_once(" @ ") {
+        Some((_, loc)) => loc.starts_with("src/") || loc.starts_with("build.rs"),
+        None => true,
+    }
+}
+
 /// Engine failure: the machinery itself is broken. Never a verdict.
 pub fn engine_failure(msg: &str) -> ! {
     QUIET_PANICS.store(false, Ordering::Relaxed);
@@ -413,6 +423,7 @@ where
     D: Fn(u64) -> Value + Sync,
 {
     let threads = ctx.threads.max(1);
+    QUIET_PANICS.store(true, Ordering::Relaxed);
     let next = AtomicU64::new(0);
     let done = AtomicBool::new(false);
     // per-thread (current idx + 1, or 0 when idle)
@@ -425,6 +436,7 @@ where
             let cur = &cur;
             let f = &f;
             let mk = &mk;
+            let describe = &describe;
             let chunk = opts.chunk;
             handles.push(sc.spawn(move || {
                 let mut local = mk();
@@ -439,7 +451,15 @@ where
                     }
                     for idx in start..end {
                         cur[t].store(idx + 1, Ordering::Relaxed);
-                        f(idx, &mut local);
+                        // a panic that escapes the per-case guards: if it was raised in library code it is
+                        // a verdict on this case (the library does not process the input totally), if it
+                        // was raised in the harness it is a machinery failure
+                        if let Err(p) = catch_unwind(AssertUnwindSafe(|| f(idx, &mut local))).map_err(|_| LAST_PANIC.with(|p| p.borrow_mut().take()).unwrap_or_else(|| "<panic>".into())) {
+                            if panic_in_harness(&p) {
+                                engine_failure(&format!("worker thread panicked in harness code on case {idx} of sweep '{}': {p}", opts.name));
+                            }
+                            ctx.violation(idx, "panic", &format!("case {idx} of sweep '{}': the library panicked: {p}", opts.name), describe(idx));
+                        }
                     }
                 }
                 cur[t].store(0, Ordering::Relaxed);
